@@ -322,6 +322,18 @@ mod tests {
     use super::*;
 
     #[test]
+    fn test_dense_cluster_then_gap() {
+        // 300 consecutive ids make a dense run in the unary upper bits.
+        let mut values: Vec<u64> = (0..300).collect();
+        values.push(1_000_000);
+        let ef = EliasFano::new(&values);
+        let decoded: Vec<u64> = ef.iter().collect();
+        assert_eq!(decoded, values);
+        assert!(ef.contains(260));
+        assert_eq!(ef.predecessor(999_999), Some(299));
+    }
+
+    #[test]
     fn test_empty() {
         let ef = EliasFano::new(&[]);
         assert!(ef.is_empty());
